@@ -300,27 +300,34 @@ def check_length_prefixes(ctx, rule, funcs):
 
 
 def prefix_write_pairs(ctx, rule, f, writer_attr='write'):
-  """R2 for split writes: w(pack(len(X))) immediately followed by w(Y) requires X == Y."""
+  """R2 for split writes, on every path: w(pack(len(X))) followed by the next w(Y) on the same writer requires that Y is X -- the very
+  value that was measured, not a converted copy of it."""
+  from .util import enum_paths, resolved_text
   n = 0
-  body = f.node.body
-  defs = local_defs(f.node)
-  stmts = [s for s in body if not (isinstance(s, ast.Expr) and isinstance(s.value, ast.Constant))]
-  for a, b in zip(stmts, stmts[1:]):
-    if not (isinstance(a, ast.Expr) and isinstance(a.value, ast.Call) and isinstance(b, ast.Expr) and isinstance(b.value, ast.Call)):
+  seen = set()
+  for ev, ex in enum_paths(ctx, f):
+    if ex[0] == 'raise':
       continue
-    ca, cb = a.value, b.value
-    if not (ca.args and cb.args):
-      continue
-    inner = ca.args[0]
-    if isinstance(inner, ast.Call) and (dotted(inner.func) or '').split('.')[-1] == 'pack':
+    writes = [(i, e.node) for i, e in enumerate(ev) if e.kind == 'call' and isinstance(e.node.func, ast.Attribute) and e.node.func.attr == writer_attr and e.node.args]
+    for (i, ca), (j, cb) in zip(writes, writes[1:]):
+      inner = ca.args[0]
+      if not (isinstance(inner, ast.Call) and (dotted(inner.func) or '').split('.')[-1] == 'pack'):
+        continue
       lens = [x for x in inner.args if isinstance(x, ast.Call) and isinstance(x.func, ast.Name) and x.func.id == 'len']
-      if len(lens) == 1 and len(cb.args) == 1 and U(ca.func) == U(cb.func):
+      if len(lens) != 1 or len(cb.args) != 1 or U(ca.func) != U(cb.func):
+        continue
+      X = resolved_text(ev, i, lens[0].args[0])
+      Y = resolved_text(ev, j, cb.args[0])
+      rebound = any(e.kind == 'stmt' and isinstance(e.node, (ast.Assign, ast.AugAssign)) and any(
+        isinstance(t, ast.Name) and t.id in [n_.id for n_ in ast.walk(lens[0].args[0]) if isinstance(n_, ast.Name)]
+        for t in (e.node.targets if isinstance(e.node, ast.Assign) else [e.node.target])) for e in ev[i + 1:j])
+      key = (U(ca), U(cb), X, Y)
+      if key not in seen:
+        seen.add(key)
         n += 1
-        X = lens[0].args[0]
-        Y = cb.args[0]
-        ctx.ob(rule, f, 'prefix len(%s) then write %s' % (U(X), U(Y)), same_value(X, Y, defs, b.lineno),
-               'length prefix measures %s but %s is written' % (U(X), U(Y)),
-               'a length prefix that does not measure the bytes written desynchronises the reader')
+      ctx.ob(rule, f, 'prefix len(%s) then write %s' % (U(lens[0].args[0]), U(cb.args[0])), X == Y and not rebound,
+             'length prefix measures %s but %s is written' % (X, Y),
+             'a length prefix that does not measure the bytes written desynchronises the reader (text measured in characters, written as UTF-8 bytes)')
   return n
 
 
